@@ -1,8 +1,15 @@
 (* Per-property command handlers; filled in as the models grow. *)
+module S = Stdlib.String
+module L = Stdlib.List
+module A = Stdlib.Array
+module H = Stdlib.Hashtbl
+module B = Stdlib.Buffer
+module C = Stdlib.Char
+type ostring = string
 open Model
 open Vparse
 
-let all : ((string -> (v list -> string) -> unit) -> unit) list ref = ref []
+let all : ((ostring -> (v list -> ostring) -> unit) -> unit) list ref = ref []
 let section f = all := f :: !all
 
 
@@ -28,12 +35,12 @@ let zopt = function L [] -> None | L [a] -> Some (zv a) | _ -> failwith "opt"
 let register_c10 reg =
   reg "staged" (function
     | [stages; start; ts] ->
-      let (outs, total) = staged_run (List.map zpair (lv stages)) (zopt start) (zlist ts) in
+      let (outs, total) = staged_run (L.map zpair (lv stages)) (zopt start) (zlist ts) in
       "ok [" ^ show_zlist outs ^ "," ^ z_to_string total ^ "]"
     | _ -> failwith "staged: arity");
   reg "staged_ok" (function
     | [stages; start; ts; L [outs; total]] ->
-      show_bool (staged_ok (List.map zpair (lv stages)) (zopt start) (zlist ts) (zlist outs) (zv total))
+      show_bool (staged_ok (L.map zpair (lv stages)) (zopt start) (zlist ts) (zlist outs) (zv total))
     | _ -> failwith "staged_ok: arity");
   reg "ramp" (function
     | [from; to_; dur; ts] -> "ok " ^ show_zlist (ramp_run_f64 (zv from) (zv to_) (zv dur) (zlist ts))
@@ -75,11 +82,11 @@ let sop_of = function
   | L [I t] when z_to_int t = 1 -> SSnapshot
   | L [I t] when z_to_int t = 2 -> STotal
   | _ -> failwith "sop"
-let show_q (((a, c), mn), mx) = "[" ^ String.concat "," (List.map z_to_string [a; c; mn; mx]) ^ "]"
+let show_q (((a, c), mn), mx) = "[" ^ S.concat "," (L.map z_to_string [a; c; mn; mx]) ^ "]"
 let show_snap (((d, p), ls), lf) = "[" ^ z_to_string d ^ "," ^ show_q p ^ "," ^ show_q ls ^ "," ^ show_q lf ^ "]"
 let register_c17 reg =
   reg "stats_run" (function
-    | [ops] -> "ok " ^ show_list show_snap (stats_run stats0 (List.map sop_of (lv ops)))
+    | [ops] -> "ok " ^ show_list show_snap (stats_run stats0 (L.map sop_of (lv ops)))
     | _ -> failwith "stats_run: arity");
   reg "c01_ok" (function
     | [ns; nf; nd; ts; tf; td; mon; ms; mf; md] ->
@@ -92,13 +99,13 @@ let act_of = function
   | L [I k; a] -> (match z_to_int k with 0 -> ARegister (natv a) | 5 -> AMark (natv a) | _ -> failwith "act2")
   | L [I k] -> (match z_to_int k with 1 -> AFail | 2 -> AFailNow | 3 -> APanicErr | 4 -> APanicVal | _ -> failwith "act1")
   | _ -> failwith "act"
-let acts_of v = List.map act_of (lv v)
-let tab_of v = let t = Array.of_list (List.map acts_of (lv v)) in
-  fun c -> let i = z_to_int (Z.of_nat c) in if i < Array.length t then t.(i) else []
+let acts_of v = L.map act_of (lv v)
+let tab_of v = let t = A.of_list (L.map acts_of (lv v)) in
+  fun c -> let i = z_to_int (Z.of_nat c) in if i < A.length t then t.(i) else []
 let show_bools l = show_list show_bool l
 let register_c06 reg =
   reg "worker_obs" (function
-    | [tab; bodies] -> let (es, fs) = worker_obs (tab_of tab) (List.map acts_of (lv bodies)) in
+    | [tab; bodies] -> let (es, fs) = worker_obs (tab_of tab) (L.map acts_of (lv bodies)) in
       "ok [" ^ show_zlist es ^ "," ^ show_bools fs ^ "]"
     | _ -> failwith "worker_obs: arity");
   reg "run_obs" (function
@@ -107,8 +114,24 @@ let register_c06 reg =
     | _ -> failwith "run_obs: arity");
   reg "combine_obs" (function
     | [tab; comps; k] ->
-      let cs = List.map (function L [s; r] -> (acts_of s, acts_of r) | _ -> failwith "comp") (lv comps) in
+      let cs = L.map (function L [s; r] -> (acts_of s, acts_of r) | _ -> failwith "comp") (lv comps) in
       let ((ses, sf), (es, fs)) = combine_obs (tab_of tab) cs (natv k) in
       "ok [[" ^ show_zlist ses ^ "," ^ show_bool sf ^ "],[" ^ show_zlist es ^ "," ^ show_bools fs ^ "]]"
     | _ -> failwith "combine_obs: arity")
 let () = section register_c06
+
+(* ---- C16 *)
+let str_pair = function L [a; b] -> (zlist a, zlist b) | _ -> failwith "strpair"
+let mout_of z = match z_to_int z with 0 -> MSucc | 1 -> MFail | _ -> MDrop
+let run_of = function
+  | L [name; sf; outs] -> ((zlist name, bv sf), L.map mout_of (zlist outs))
+  | _ -> failwith "run"
+let show_series l =
+  show_list (fun (ps, n) -> "[" ^ show_list (fun (a, b) -> "[" ^ show_zlist a ^ "," ^ show_zlist b ^ "]") ps ^ "," ^ z_to_string n ^ "]") l
+let register_c16 reg =
+  reg "gather_obs" (function
+    | [labels; enabled; runs] ->
+      let (s, i) = gather_obs (L.map str_pair (lv labels)) (bv enabled) (L.map run_of (lv runs)) in
+      "ok [" ^ show_series s ^ "," ^ show_series i ^ "]"
+    | _ -> failwith "gather_obs: arity")
+let () = section register_c16
